@@ -48,25 +48,17 @@ def run(ctx):
 
 
 def empty_read(ctx):
-    fn, lv = leaves(ctx, conn.RECV)
     n = 0
-    for lf in lv:
-        rk = ret_kind(lf)
-        if rk is None or rk[0] == "Ok":
-            continue
-        n += 1
-        eff = conn.self_effects(ctx, lf, allow=("index_mut",))
-        ctx.ob("R01.1", "recv-wrapper|failed|no-effect", not eff, "failed receive: the wrapper writes nothing to the connection (effects: %s)" % eff, fn.loc(lf.bb))
-    fr, lr = leaves(ctx, conn.READ_BYTES)
+    fr, lr = conn.receive_leaves(ctx)
     for lf in lr:
-        rc = [e for e in lf.events if e[0] == "call" and e[3] == conn.RECV]
+        rc = conn.os_receive_calls(lf)
         if not rc:
             continue
-        failed = any(t[0] == "discr" and is_call(t[1], "branch") and norm(look(t[1][2][0])) == norm(rc[0][4]) and c == ("eq", 1) for (t, c, _b) in lf.conds)
-        failed = failed or any(t[0] == "discr" and norm(look(t[1])) == norm(rc[0][4]) and (c == ("eq", 1) or (c[0] == "ne" and 0 in c[1])) for (t, c, _b) in lf.conds)
+        from .util import result_outcome
+        failed = result_outcome(lf, rc[0][4]) == "err"
         if failed:
             n += 1
-            eff = conn.self_effects(ctx, lf, allow=("recv_with_fds",))
+            eff = conn.self_effects(ctx, lf, allow=("recv_with_fds", "index_mut"))
             rk = ret_kind(lf)
             ctx.ob("R01.1", "read_bytes|failed|no-effect", not eff and rk is not None and rk[0] in ("prop", "Err"), "failed receive: read_bytes returns the error (not a made-up end index) without touching the connection (effects: %s, returns %s)" % (eff, rk[0] if rk else None), fr.loc(lf.bb))
     loopfn = conn.parse_loop_fn(ctx)
@@ -104,7 +96,7 @@ def empty_read(ctx):
                     if x[0] == "field" and x[1][0] == "downcast" and x[1][2] == "Err" and calls_loop and norm(look(x[1][1])) == norm(calls_loop[0][4]) and c == ("eq", pe):
                         known_pe = True
                 ctx.ob("R01.1", "try_read|effect-only-on-parse-error", known_pe, "try_read touches the connection itself (%s) only on a path where the error was tested to be a ParseError: a would-block read must leave the carried-over bytes alone" % [e[1].split("::")[-1] for e in eff], ft.loc(lf.bb))
-    ctx.ob("R01.1", "floor", n >= 3, "%d failed-receive paths inspected (floor 3)" % n)
+    ctx.ob("R01.1", "floor", n >= 2, "%d failed-receive paths inspected (floor 2: in read_bytes and in the parser loop)" % n)
 
 
 def cursor_defined(ctx):
@@ -285,7 +277,7 @@ def body(ctx):
 
 
 def window(ctx):
-    fn, lv = leaves(ctx, conn.RECV)
+    fn, lv = conn.receive_leaves(ctx)
     ok = False
     for lf in lv:
         for e in lf.events:
@@ -294,7 +286,7 @@ def window(ctx):
                 if r[0] == "agg" and r[1].startswith("std::ops::RangeFrom") and self_field(r[3][0], "read_cursor"):
                     ok = True
     ctx.ob("R01.6", "window", ok, "new bytes are received into buffer[read_cursor..]", fn.loc(0))
-    fr, lr = leaves(ctx, conn.READ_BYTES)
+    fr, lr = conn.receive_leaves(ctx)
     n_ok = 0
     for lf in lr:
         r = look(lf.ret())
@@ -303,7 +295,10 @@ def window(ctx):
             n_ok += 1
             ca = look(r[2][0])
             a, b = look(ca[2][0]), look(ca[2][1])
-            okv = (self_field(b, "read_cursor") and a[0] == "field" and a[3] == "0") or (self_field(a, "read_cursor") and b[0] == "field" and b[3] == "0")
+            def received_count(t):
+                # component 0 of what the OS receive call returned
+                return t[0] == "field" and t[3] == "0" and payload_of(t[1]) is not None and last_seg(payload_of(t[1])[1]) == "recv_with_fds"
+            okv = (self_field(b, "read_cursor") and received_count(a)) or (self_field(a, "read_cursor") and received_count(b))
             ctx.ob("R01.6", "end=read+cursor", okv, "the end of valid data is bytes_read + read_cursor", fr.loc(lf.bb))
         elif rk is not None and rk[0] == "Ok":
             v = look(rk[1])
